@@ -1,7 +1,9 @@
 """C14 - serialization round-trips every emittable value and yields plain
 JSON data.  All value trees of depth <= 2 (3) over a boundary alphabet."""
+import collections
 import itertools
 import math
+import time
 
 import numpy as np
 
@@ -131,7 +133,13 @@ REJECTS = [('object', lambda: object()), ('complex', lambda: 1 + 2j),
            ('npstrkey', lambda: {np.str_('a'): 1}),
            # callable, but neither functions nor processes
            ('functor', lambda: _Functor()), ('class', lambda: _Functor),
-           ('units-registry', lambda: units)]
+           ('units-registry', lambda: units),
+           # tuple SUBCLASSES (orjson hands them to the fallback hook)
+           ('namedtuple', lambda: _Point(1.0, 2.0)),
+           ('struct_time', lambda: time.gmtime(0))]
+
+
+_Point = collections.namedtuple('_Point', ['x', 'y'])
 
 
 class _Functor:
@@ -328,11 +336,21 @@ def check_value(x, lbl, acc, emitter=True):
     if not equal(s2, s) or fw.jdump(s2) != fw.jdump(s):
         V('C14.idempotent', 'not-idempotent',
           f'serialize(serialize({lbl})) = {s2!r} != {s!r}')
+    s_before = fw.jdump(s)
     try:
         d = deserialize_value(s)
     except Exception as e:  # noqa
         V('C14.roundtrip', f'deserialize-raises-{type(e).__name__}',
           f'deserialize_value({s!r}) raised {e!r}')
+        return
+    try:
+        s_after = fw.jdump(s)
+    except Exception as e:  # noqa
+        s_after = f'<not JSON any more: {e!r}>'
+    if s_after != s_before:
+        V('C14.plain', 'deserialize-modified-its-input',
+          f'{lbl}: after deserialize_value(s) the serialized data s reads '
+          f'{s_after[:200]}, it was {s_before[:200]}')
         return
     if not equal(d, want):
         kind = 'quantity' if 'q:' in lbl or 'unit:' in lbl else 'structure'
@@ -351,6 +369,13 @@ def check_value(x, lbl, acc, emitter=True):
         if not equal(back, want):
             V('C14.emitter', 'emitter-roundtrip-differs',
               f'{lbl}: emitter gave {back!r}, expected {want!r}')
+            return
+        # reading the deserialized view leaves the stored raw data plain
+        raw = em.get_data()[1.0]['v']
+        if not is_plain(raw) or fw.jdump(raw) != fw.jdump(s):
+            V('C14.emitter', 'raw-history-changed-by-deserialized-read',
+              f'{lbl}: after get_data_deserialized() get_data() holds '
+              f'{raw!r}, serialize_value gives {s!r}')
 
 
 _SHAPES = {}
@@ -535,3 +560,6 @@ RULE += (
 
 RULE += (
     ' Zero-dimensional arrays are scalars. Reuse: ONE fallback hook (make_fallback_serializer_function) and one RAMEmitter serialize a value, the value (a set, a string / strided / float16 array, an array quantity, an object array of quantities; bare, in a dictionary, deep) is changed in place or replaced by a new object, and it is serialized again: the second result equals a fresh serialization and the first one still reads what the value was.')
+
+RULE += (
+    ' Rejects include tuple SUBCLASSES (a named tuple, time.struct_time). deserialize_value leaves the serialized data it is given as it was, and get_data_deserialized() leaves the emitter\'s raw history plain.')
